@@ -200,7 +200,7 @@ def run(ctx):
         sink1 = io.BytesIO(); sink1.write(leading)
         sink2 = WriteOnlySink(); sink2.write(leading)
         sink3 = RetainingSink(); sink3.write(leading)
-        if rng.random() < 0.3:
+        if rng.random() < 0.12:
             msgs = [(i, values.abstract(w), w) for i, a, obj in msgs for w in (widen_arrays(obj),)]
         sw, tr, loop = stream_writer(); sw.write(leading)
         try:
